@@ -7,6 +7,9 @@
 (*                                     ParserConfig.DebugTypes; globals: rank *)
 (*                                     among the program's globals of a type) *)
 (*    "run":"ok"|"error"|"panic"|"none","out":[{"f","i","k","n"}...]}         *)
+(* P is a program of Resolver.tla; every variable reference carries its form *)
+(* "fm" ("v" bare, "p" (x), "e" x "", "x" x[length(x)]), also as argument of  *)
+(* length(); WellFormed (InDomain) checks the shape.                          *)
 (* Each event is a complete resolution (the resolver keeps no state between   *)
 (* parses), so every event is preceded by a reset.                            *)
 EXTENDS Resolver, TraceBase
